@@ -316,6 +316,20 @@ package hcldec
 //@ nosafety
 //@ ensures root: in(spec, specDescended)
 
+// ---- the variables a specification needs (unit U17i, C07) ----
+// verif:unit U17i props=C07
+// hcldec.Variables asks every spec that evaluates expressions for the references it needs. An
+// attribute spec must ask the attribute's expression - whatever its type constraint, including types
+// with a custom expression decoder, which evaluate the expression too - and an expression spec its own
+// expression; a block-attributes spec every attribute of its block. (varsAsked: the expressions whose
+// Variables() was called.)
+// verif:func (*AttrSpec).variablesNeeded
+//@ nosafety
+//@ ensures asked: content != nil && has(content.Attributes, s.Name) ==> in(content.Attributes[s.Name].Expr, varsAsked)
+// verif:func (*ExprSpec).variablesNeeded
+//@ nosafety
+//@ ensures asked: in(s.Expr, varsAsked)
+
 // verif:unit U18 props=C19
 // Block labels may have been computed from values (dynamic blocks): not source text.
 // verif:dirtystrings hcldec.blockLabel.Value
